@@ -662,6 +662,84 @@ pub fn run(ctx: &Ctx) -> i32 {
         }
     }
     let mut acc = Acc::new();
+    // histories: two operations one after the other on the same strings, without rebuilding them in between (the search
+    // below rebuilds every state from its contents, which hides whatever the VM remembers about a string object)
+    {
+        let inits: Vec<SS> = frontier.clone();
+        let firsts: Vec<(usize, usize)> = (0..inits.len()).flat_map(|i| (0..ops.len()).map(move |j| (i, j))).collect();
+        let (inits_ref, ops_ref) = (&inits, &ops);
+        let a = par_fold(
+            firsts.len() as u64,
+            4,
+            || St { im: None, used: 0 },
+            |st, acc, k| {
+                let (i, j) = firsts[k as usize];
+                let s = &inits_ref[i];
+                let op1 = &ops_ref[j];
+                let mut s1 = s.clone();
+                if op1.apply(&mut s1) != Out::Ok {
+                    return;
+                }
+                let s1 = s1.canon();
+                if !s1.ok() {
+                    return;
+                }
+                let build = s.build();
+                for op2 in ops_ref.iter() {
+                    let mut s2 = s1.clone();
+                    let out = op2.apply(&mut s2);
+                    if out == Out::NotEnabled {
+                        continue;
+                    }
+                    let after = if out == Out::Fail { s1.clone() } else { s2.canon() };
+                    if !after.ok() {
+                        continue;
+                    }
+                    acc.evals += 1;
+                    acc.count("history_pairs", 1);
+                    beat(&format!("{} {} {}", build, op1.text, op2.text));
+                    let im = vm(st);
+                    let _ = im.eval_text(&build);
+                    let _ = im.eval_text(&op1.text);
+                    let r = im.eval_text(&op2.text);
+                    let key = format!("{} ; {} @ {}", op1.text, op2.text, s.show());
+                    let mk = |observed: &str, what: String| Violation {
+                        key: key.clone(),
+                        class: Some(format!("history/{}>{}", op1.kind, op2.kind)),
+                        observed: observed.to_string(),
+                        detail: json!({"session": [VM_PRELUDE, build, op1.text, op2.text, "(list s0 s1 c d)"], "problem": what, "model_state_after": after.show()}),
+                    };
+                    match (&out, &r) {
+                        (_, ImplOut::Panic(m)) => {
+                            acc.violation(mk("panic", m.clone()));
+                            st.im = None;
+                            continue;
+                        }
+                        (Out::Fail, ImplOut::Value(c)) => {
+                            acc.violation(mk("value-instead-of-error", format!("{:#}", c)));
+                            continue;
+                        }
+                        (Out::Fail, ImplOut::Error(_, _)) => {}
+                        (_, ImplOut::Error(m, _)) => {
+                            acc.violation(mk("error-for-valid-call", m.clone()));
+                            continue;
+                        }
+                        (_, ImplOut::Value(_)) => {}
+                    }
+                    match im.eval_text("(list s0 s1 c d)") {
+                        ImplOut::Value(c) => match after.matches(&c) {
+                            Ok(()) => acc.nontrivial += 1,
+                            Err(what) => acc.violation(mk("wrong-contents", format!("{} (observed {:#})", what, c))),
+                        },
+                        other => acc.violation(mk("wrong-contents", other.show())),
+                    }
+                }
+            },
+            Acc::merge,
+            acc_zero,
+        );
+        acc = Acc::merge(acc, a);
+    }
     let mut per_depth = vec![];
     let mut depth_done = 0;
     let mut parent_count = 0u64;
